@@ -35,7 +35,8 @@ def _src(node):
 class Frag:
     def __init__(self, name, file, qual, atoms, outputs='return', mutable=(), ignore=(), inline=(), select=None,
                  unroll=None, ret='Bool', props=(), doc='', consts=None, fallthrough=None, locals_=None,
-                 properties_of=None, params=None, param_types=None):
+                 properties_of=None, params=None, param_types=None, alias=None,
+                 raise_codes=None):
         self.name = name              # Lean name (in namespace Gen)
         self.file = file              # path below the repository root
         self.qual = qual              # 'Class.method' / 'func.inner'
@@ -52,6 +53,8 @@ class Frag:
         self.fallthrough = fallthrough  # lean term for "fell off the end" when outputs == 'return'
         self.locals = dict(locals_ or {})  # types of fresh local names {name: 'Int'|'Bool'}
         self.params = params
+        self.alias = dict(alias or {})      # {python source: python source translated in its place}
+        self.raise_codes = list(raise_codes or [])   # [(substring of the message, integer result)]
         self.param_types = dict(param_types or {})
         self.properties_of = properties_of  # class name whose @property one-liners are inlined for `self.x`
 
@@ -135,6 +138,8 @@ class Translator:
         a = self.atom(node, env)
         if a is not None:
             return a
+        if _src(node) in self.f.alias:
+            return self.expr(ast.parse(self.f.alias[_src(node)], mode='eval').body, env)
         if isinstance(node, ast.Constant):
             v = node.value
             if isinstance(v, bool):
@@ -325,6 +330,10 @@ class Translator:
             x, t = self.expr(s.value, env)
             return (x, t)
         if isinstance(s, ast.Raise):
+            msg = _src(s)
+            for sub, code in self.f.raise_codes:
+                if sub in msg:
+                    return ('(%d : Int)' % code, 'Int')
             self.raises = True
             return ('none', 'RAISE')
         if isinstance(s, ast.Continue):
